@@ -132,7 +132,7 @@ the hardware write — are located in the source (`read_process_image`, `Command
 theorem nested_yield_points :
     OPM.Gen.LockTable.nested =
       [("hwl.read_batch", "read_process_image"), ("hwl.write_batch", "write_process_image"),
-       ("uod.execute", "command_manager.tick")] := by decide
+       ("uod.execute", "command_manager.tick"), ("interp.subtick", "interpreter.tick")] := by decide
 
 /-- **The extent of the lock**: the command phase (with every UOD exec function it runs), the notification of tag
 changes and the write phase (with the hardware write) are under the tick's lock — a request that arrives while the
